@@ -1,7 +1,7 @@
 (** C05 — packet protection round-trips, matches RFC 9001, rejects tampering.
     Only statements live here; each is closed by [exact] of a lemma proved elsewhere. *)
 From Coq Require Import List ZArith Sorted.
-From V Require Import Gen.Params PktProt.PktNum PktProt.PktNumProofs.
+From V Require Import Gen.Params PktProt.PktNum PktProt.PktNumProofs PktProt.KeyPhase PktProt.KeyPhaseProofs PktProt.KeyPhaseRun PktProt.KeyPhaseExamples.
 Import ListNotations.
 Open Scope Z_scope.
 
@@ -30,3 +30,36 @@ Print Assumptions C05_pn_decode_window.
 Theorem C05_pn_never_reused : pn_never_reused_statement.
 Proof. exact pn_never_reused. Qed.
 Print Assumptions C05_pn_never_reused.
+
+(** (e) Key updates are neither initiated nor accepted earlier than the protocol allows.
+    For every AEAD, every configuration of the update intervals and every history [ops] of
+    calls on one updatableAEAD made by an arbitrary peer and environment — the only
+    obligations ([wf_ops]) being the local ones: packet numbers handed to Seal increase
+    and SetLargestAcked is called only for numbers that were sent — every entry
+    [(phase before, call, result, phase after)] of the trace satisfies [claim] w.r.t. the
+    entries [pre] before it:
+    - KeyPhase() changes the phase only by +1, only after SetHandshakeConfirmed, and from a
+      phase g > 0 only if a packet sealed in phase g was acknowledged in phase g;
+    - Open changes the phase only by +1, only when it returns a plaintext, and from a phase
+      g > 0 only if a packet was sealed in phase g; KEY_UPDATE_ERROR is returned only in a
+      phase g > 0 in which nothing was sealed (and leaves the phase unchanged);
+    - SetLargestAcked(pn) returns KEY_UPDATE_ERROR exactly when pn covers a packet sealed in
+      the current phase while no packet has been opened with the current phase's key. *)
+Theorem C05_update_not_early :
+  forall (ctext ptext adata : Type)
+         (aead_seal : key -> Z -> adata -> ptext -> ctext)
+         (aead_open : key -> Z -> adata -> ctext -> option ptext)
+         cfg rd wd lim ops pre e post,
+    wf_ops ctext ptext adata ops ->
+    ua_trace ctext ptext adata aead_seal aead_open cfg (ua_new rd wd lim) ops = pre ++ e :: post ->
+    claim ctext ptext adata pre e.
+Proof. exact update_not_early. Qed.
+Print Assumptions C05_update_not_early.
+
+(** Non-vacuity: a well-formed history in which both a local update (0 -> 1, then 1 -> 2
+    after an acknowledged phase-1 packet) and a peer-initiated update (2 -> 3) happen. *)
+Example C05_update_not_early_nonvacuous :
+  wf_ops sct Z Z update_example_ops /  map (fun e => snd e) (ua_trace sct Z Z sym_seal sym_open {| keyUpdateInterval := 2; firstKeyUpdateInterval := 1 |} (ua_new 1 0 10) update_example_ops)
+  = [0; 0; 1; 1; 1; 1; 1; 1; 2; 2; 2; 3].
+Proof. exact update_example_ok. Qed.
+Print Assumptions C05_update_not_early_nonvacuous.
